@@ -765,6 +765,38 @@ def run_C03(ctx):
                     k, x, y = bad[0]
                     fail(out, f"C03:{topo_key(net)}:{shape_}", net, pv, svx,
                          f"{label}: CasADi SX compact=0 {k} = {x!r}, NumPy step gives {y!r}", scalar_shape=shape_, sym="SX", compact=0)
+        # speed-limit signs that bind although they show the free-flow speed or more: a negative non-compliance
+        # factor (drivers slower than the sign), every sign of the link a little above v_free, light traffic
+        for l_, v_ in net.links.items():
+            if v_["vsl"] is None or not v_["vsl"]:
+                continue
+            pvs = dict(pv)
+            pvs[f"lp.{l_}.alpha"] = -0.12
+            svs = dict(pts[0][1])
+            for k_ in range(len(v_["vsl"])):
+                svs[f"vc.{l_}.{k_}"] = pv[f"lp.{l_}.v_free"] * (1.0 + 0.02 * (k_ + 1))
+            for i_ in range(v_["N"]):
+                svs[f"rho.{l_}.{i_}"] = 0.2 * pv[f"lp.{l_}.rho_crit"]
+                svs[f"v.{l_}.{i_}"] = 0.9 * pv[f"lp.{l_}.v_free"]
+            if dyn.near_excluded(net, pvs, svs):
+                continue
+            try:
+                runs_ = Runner(net, pvs)
+                refs = runs_.numpy_step(svs)
+                Fs_, _ = runs_.function("SX", 0, False)
+                valss, _p = runs_.call(Fs_, 0, False, svs)
+            except Exception as ex:
+                fail(out, f"C03:{topo_key(net)}:slow-drivers-raise", net, pvs, svs, f"negative non-compliance factor: raised {ex!r:.300}")
+                continue
+            out["coverage"]["evaluations"] += 1
+            if valss is not None:
+                bad = states_close(valss, refs, keys)
+                if bad:
+                    k, x, y = bad[0]
+                    fail(out, f"C03:{topo_key(net)}:slow-drivers", net, pvs, svs,
+                         f"link {l_}: non-compliance factor -0.12, signs a little above v_free, light traffic: CasADi SX compact=0 "
+                         f"{k} = {x!r}, NumPy step gives {y!r}", sym="SX", compact=0)
+            break
         # the same engine and the same network, stepped again with other options and compiled again with
         # the very same to_function arguments: the function must be the one of the latest step
         sv = pts[0][1]
@@ -1161,8 +1193,61 @@ def run_C11(ctx):
                     fail(out, f"C11:{topo_key(net)}:raise", net, pv, sv,
                          f"{backend}: stepping with positivity options raised {ex!r:.300} (network objects re-used "
                          f"across option sets and engines)", backend=backend, reads_seed=run.reads_seed)
+    for ci, (net, pv, pts, mtree, stree, run) in enumerate(data):
+        if any(k_ != "ideal" for k_ in net.origins.values()):
+            handed_back_next_states(out, "C11", net, pv, rng, state_keys(net))
     return finish(out, distinct, data, RULE + "; states with negative entries; each single option, random "
                   "combinations and none; NumPy and CasADi; distinct = (topology, option set, backend)")
+
+
+def handed_back_next_states(out, prop, net, pv, rng, keys):
+    """the simulation-loop idiom: the VALUES a step produced (the very objects of element.next_states, with the actions
+    and disturbances the elements hold) are the initial conditions of the next step, which asks for the
+    positive_init_* clamps; a fresh twin network stepped from copies of the same numbers must give the same result
+    (a next state can be negative: METANET does not keep queues, densities or speeds positive)"""
+    svn = nets.random_state(net, pv, rng, "negative")
+    if dyn.near_excluded(net, pv, svn):
+        return
+    o_ = {"pi_rho": True, "pi_v": True, "pi_w": True}
+    try:
+        Ra = impl.Real(net, pv)
+        Ra.numpy_step(svn)                       # no clamping: negative next states are possible
+        els = [(("l", l), Ra.links[l]) for l in Ra.links] + [(("o", o), Ra.origins[o]) for o in Ra.origins] + \
+              [(("d", d), Ra.dests[d]) for d in Ra.dests]
+        given = {}
+        for kk, el in els:
+            if el not in set(Ra.net.elements):
+                continue
+            dct = {}
+            for grp in (el.next_states, el.actions, el.disturbances):
+                for k, v in (grp or {}).items():
+                    dct[k] = v                    # the object itself, not a copy
+            if dct:
+                given[kk] = (el, dct)
+        Rb = impl.Real(net, pv)
+        twin = {("l", l): Rb.links[l] for l in Rb.links}
+        twin.update({("o", o): Rb.origins[o] for o in Rb.origins})
+        twin.update({("d", d): Rb.dests[d] for d in Rb.dests})
+        ic_a = {el: dct for (el, dct) in given.values()}
+        ic_b = {twin[kk]: {k: np.array(v, dtype=float, copy=True) for k, v in dct.items()} for kk, (el, dct) in given.items()}
+        neg = any(float(np.min(np.asarray(v, dtype=float))) < 0 for (_, dct) in given.values() for v in dct.values()
+                  if np.size(v))
+        with np.errstate(all="ignore"):
+            Ra.net.step(init_conditions=ic_a, engine=impl.NpEngine(5.5), **nets.opts_kwargs(o_), **Ra.step_kwargs())
+            Rb.net.step(init_conditions=ic_b, engine=impl.NpEngine(5.5), **nets.opts_kwargs(o_), **Rb.step_kwargs())
+        out["coverage"]["evaluations"] += 1
+        a_, b_ = Ra.read_next(), Rb.read_next()
+        for k in keys:
+            if not same_float(a_[k], b_[k]) and not (math.isnan(a_[k]) and math.isnan(b_[k])):
+                fail(out, f"{prop}:{topo_key(net)}:handed-back", net, pv, svn,
+                     f"second step from the next states of the first (the objects themselves; some negative: {neg}) with the "
+                     f"positive_init options gives {k} = {a_[k]!r}; a fresh network from copies of the same numbers gives {b_[k]!r}",
+                     opts=o_)
+                break
+    except Exception as ex:
+        fail(out, f"{prop}:{topo_key(net)}:handed-back-raise", net, pv, svn,
+             f"stepping from the next states of the previous step raised {ex!r:.300}")
+
 
 
 # ---------------------------------------------------------------------------
@@ -1529,6 +1614,40 @@ def run_C16(ctx):
         except Exception as ex:
             fail(out, f"C16:{topo_key(net)}:stacked-entry-raise", net, pv, sv,
                  f"a declared parameter entry that is a stack of three symbols: raised {ex!r:.300}")
+        # TWO declared entries that are stacks of three symbols each (one per link), aggregated level: the single
+        # stacked vector holds the first entry's three symbols, then the second's - in the order declared
+        try:
+            import casadi as cs
+            ls_ = sorted(net.links)[:2]
+            if len(ls_) == 2:
+                toksA = [f"lp.{ls_[0]}.rho_crit", f"lp.{ls_[0]}.a", f"lp.{ls_[0]}.v_free"]
+                toksB = [f"lp.{ls_[1]}.rho_crit", f"lp.{ls_[1]}.a", f"lp.{ls_[1]}.v_free"]
+                for sym in ("SX",):
+                    st_ = getattr(cs, sym)
+                    thA, thB = st_.sym("thA", 3, 1), st_.sym("thB", 3, 1)
+                    sp = {t: thA[i] for i, t in enumerate(toksA)}
+                    sp.update({t: thB[i] for i, t in enumerate(toksB)})
+                    Rk = impl.Real(net, pv, sym_params=sp)
+                    eng = impl.CsEngine(sym)
+                    Rk.net.step(engine=eng, **Rk.step_kwargs())
+                    Fk = eng.to_function(Rk.net, compact=1, more_out=False, parameters={"thA": thA, "thB": thB}, **Rk.step_kwargs())
+                    out["coverage"]["evaluations"] += 1
+                    gotk, probs = Runner(net, pv).call(Fk, 1, False, sv, ptoks=toksA + toksB)
+                    Fn_, _ = plain.function(sym, 1, False)
+                    refk, _p = plain.call(Fn_, 1, False, sv)
+                    if gotk is None:
+                        fail(out, f"C16:{topo_key(net)}:two-stacked-layout", net, pv, sv,
+                             f"{sym} compact=1, two declared entries of three symbols each: " + "; ".join(probs)[:300], sym=sym)
+                    elif refk is not None:
+                        bad = states_close(gotk, refk, keys)
+                        if bad:
+                            k, x, y = bad[0]
+                            fail(out, f"C16:{topo_key(net)}:two-stacked-value", net, pv, sv,
+                                 f"{sym} compact=1, parameters declared as two stacked entries (thA for link {ls_[0]}, thB for link "
+                                 f"{ls_[1]}; p = thA then thB): {k} = {x!r}, compiled with the numbers {y!r}", sym=sym)
+        except Exception as ex:
+            fail(out, f"C16:{topo_key(net)}:two-stacked-raise", net, pv, sv,
+                 f"two declared parameter entries that are stacks of three symbols, compact=1: raised {ex!r:.300}")
         # the turn rates of all links leaving one node declared symbolic and evaluated at EQUAL values (the
         # default 1.0): distinct symbols, equal numbers
         nodes_, edges_ = net.graph()
@@ -1857,9 +1976,19 @@ def run_C18(ctx):
                 distinct.add((topo_key(net), "vsl", l, tuple(vslset)))
         # --- origins
         for o, k in net.origins.items():
-            for jam in ((False, True) if k in ("ramp_in", "ramp_out", "simp_lim") else ()):
+            for jam in ((False, True, "demand-limited") if k in ("ramp_in", "ramp_out", "simp_lim") else ()):
                 sv = dict(sv0)
-                if jam:
+                if jam == "demand-limited":
+                    # a congested first segment (space factor between 0 and 1) and so little demand, no queue, that the
+                    # demand is what limits the flow: the place of the space factor inside or outside the minimum shows
+                    nodes_j, edges_j = net.graph()
+                    n_j = [n for (n, oo, d) in nodes_j if oo == o][0]
+                    l_j = [e for e in edges_j if e[0] == n_j][0][2]
+                    rc_, rm_ = pv[f"lp.{l_j}.rho_crit"], pv[f"lp.{l_j}.rho_max"]
+                    sv[f"rho.{l_j}.0"] = rc_ + rng.uniform(0.3, 0.8) * (rm_ - rc_)
+                    sv[f"w.{o}"] = 0.0
+                    sv[f"d.{o}"] = 0.2 * pv[f"C.{o}"] * (rm_ - sv[f"rho.{l_j}.0"]) / (rm_ - rc_)
+                elif jam:
                     # the equalities are not restricted to rho <= rho_max: an over-jammed first segment (the space
                     # factor is negative) must not tell the variants apart either
                     nodes_j, edges_j = net.graph()
@@ -2239,7 +2368,13 @@ def run_C12(ctx):
         # repeatability on the used objects: unrelated steps / compilations in between
         try:
             sv2 = dyn.admissible_state(net, pv, rng, "boundary")
+            # (the unrelated step is given the optional model parameters delta and phi whether or not the later
+            # steps give them: what an earlier step was told is not remembered)
+            run.stray = {"delta": 0.0173, "phi": 1.37}
+            run.R.stray_kwargs = run.stray
             run.numpy_step(sv2, {k: rng.random() < 0.5 for k in nets.OPT_KW})
+            run.stray = {}
+            run.R.stray_kwargs = run.stray
             for sym in ("SX", "MX") if not quick or ci % 2 == 0 else ("SX",):
                 F, _ = run.function(sym, rng.choice([0, 1, 2]), bool(ci % 2), {k: rng.random() < 0.5 for k in nets.OPT_KW})
             again = run.numpy_step(sv)
@@ -2347,6 +2482,7 @@ def run_C12(ctx):
                         break
         except Exception as ex:
             fail(out, f"C12:{tk}:reported-dict-raise", net, pv, sv, f"a step from the dictionaries reported by the library raised {ex!r:.300}")
+        handed_back_next_states(out, "C12", net, pv, rng, keys)
         # element parameters given as NumPy values (0-d arrays for the turn rates): two steps leave them as they
         # were and both give what numbers give
         try:
